@@ -47,6 +47,9 @@ SNIPPETS = [
     (9, 'u$N = "caf\\u00e9" + 1\nd\u00e9f$N = 1\nd\u00e9f$N + ""\n'),
     (9, 'def ret$N(a: int) -> None:\n    return a\ndef noret$N() -> int:\n    pass\nret$N(1, 2)\nnoret$N(x=1)\nundefined$N\n'),
     (10, 'def pm$N(x: object) -> None:\n    match x:\n        case {"a": [1, 2, {"b": _}]} | {"c": (1 | 2) as q}:\n            q + ""\n        case str(real=r) | int(r):\n            pass\n'),
+    (9, 'import sys\nfrom typing import overload, TYPE_CHECKING\nif sys.version_info >= (3, 8):\n    @overload\n    def vo$N(a: int) -> int: ...\n    @overload\n    def vo$N(a: str) -> str: ...\ndef vo$N(a): return a\nif TYPE_CHECKING:\n    if sys.platform != "x":\n        @overload\n        def vp$N(a: int) -> int: ...\n        @overload\n        def vp$N(a: bytes) -> str: ...\ndef vp$N(a): return a\nvo$N(b"")\n'),
+    (9, 'class PF$N:\n    name: int = 0\npf$N = PF$N()\nnn$N = 3\ns$N = "{.nme}".format(pf$N)\nt$N = "{[0]}".format(nn$N)\nu$N = "{0.name.real:>{1}} {x!r}".format(pf$N, "w", x=1) + 1\n'),
+    (9, 'class Outer$N:\n    if True:\n        def only$N(self) -> int:\n            return ""\n    class Inner$N:\n        x: int = ""\n        def m(self) -> None:\n            def deep() -> int:\n                return ""\n'),
     (13, 'def td$N[T = int](x: T) -> T:\n    return x\nclass D$N[*Ts = *tuple[int, ...]]: ...\n'),
 ]
 
